@@ -756,45 +756,7 @@ func conserveRule(w *World, r *Report, rule string, a distAnchors) {
 		for _, f := range fns {
 			inTreeFn[f] = true
 		}
-		var shareCalls func(v ssa.Value, depth int) ([]*ssa.Call, bool)
-		shareCalls = func(v ssa.Value, depth int) ([]*ssa.Call, bool) {
-			if depth > 3 {
-				return nil, false
-			}
-			idx := 0
-			var c *ssa.Call
-			switch y := v.(type) {
-			case *ssa.Call:
-				c = y
-			case *ssa.Extract:
-				c, _ = y.Tuple.(*ssa.Call)
-				idx = y.Index
-			}
-			if c == nil {
-				return nil, false
-			}
-			if strings.HasSuffix(callName(c.Common()), "keeper.calculatePercentage") {
-				return []*ssa.Call{c}, true
-			}
-			h := c.Common().StaticCallee()
-			if h == nil || !inTreeFn[h] || c.Common().IsInvoke() {
-				return nil, false
-			}
-			var out []*ssa.Call
-			rets := Returns(h)
-			for _, ret := range rets {
-				rv := retVals(ret)
-				if idx >= len(rv) {
-					return nil, false
-				}
-				cs, ok := shareCalls(rv[idx], depth+1)
-				if !ok {
-					return nil, false
-				}
-				out = append(out, cs...)
-			}
-			return out, len(rets) > 0
-		}
+		shareCalls := func(v ssa.Value, depth int) ([]*ssa.Call, bool) { return shareCallsOf(v, inTreeFn, depth) }
 		if pcs, ok := shareCalls(x, 0); ok {
 			// must have been subtracted from the remainder, dominating the credit (in the crediting function, or in the
 			// helper that computes the share before it returns it)
@@ -1097,8 +1059,40 @@ func checkC04(w *World, r *Report) {
 		sites, fns, chainOf := w.distTree(root)
 		chain := w.remainderChainTree(root, inflow, fns)
 		// isInflow: the value (of tree function f) is the sub-distributor's total inflow handed down unchanged
+		inTree := map[*ssa.Function]bool{}
+		for _, f := range fns {
+			inTree[f] = true
+		}
 		isInflow := func(f *ssa.Function, v ssa.Value) bool {
-			return EffSite{Chain: chainOf[f]}.ToRoot(v) == ssa.Value(inflow)
+			if (EffSite{Chain: chainOf[f]}).ToRoot(v) == ssa.Value(inflow) {
+				return true
+			}
+			// a field of the routine's own state object that is only ever assigned the inflow
+			u, ok := v.(*ssa.UnOp)
+			if !ok || u.Op != token.MUL {
+				return false
+			}
+			fa, ok := u.X.(*ssa.FieldAddr)
+			if !ok {
+				return false
+			}
+			T, fld := fieldOf(fa)
+			if T == nil || T.Obj().Exported() || T.Obj().Pkg() == nil || !strings.HasPrefix(T.Obj().Pkg().Path(), modPath) {
+				return false
+			}
+			n := 0
+			for _, g := range w.ProdFuncs() {
+				for _, fs := range FieldStores(g) {
+					if fs.Struct != T || fs.Field != fld {
+						continue
+					}
+					n++
+					if !inTree[g] || (EffSite{Chain: chainOf[g]}).ToRoot(fs.Store.Val) != ssa.Value(inflow) {
+						return false
+					}
+				}
+			}
+			return n > 0
 		}
 		var shareLoop *rangeLoop
 		var fn *ssa.Function
@@ -1168,7 +1162,59 @@ func checkC04(w *World, r *Report) {
 				}
 				return sg > 0 && strings.HasSuffix(n, "types.DecCoins.Sub") || sg < 0 && strings.HasSuffix(n, "types.DecCoins.Add")
 			}
-			ok := loopBodyMustPass(*shareLoop, func(b *ssa.BasicBlock) bool { return blockHasCall(b, isShareSub) }) && loopEarlyExit(*shareLoop) == nil
+			// the subtraction may sit in a helper the iteration calls (a method of the routine's state object that takes the
+			// share off the remainder cell): every path through that helper must pass it
+			var helperMustSub func(h *ssa.Function, toLoop func(ssa.Value) ssa.Value, depth int) bool
+			subInBlock := func(f *ssa.Function, b *ssa.BasicBlock, toLoop func(ssa.Value) ssa.Value, depth int) bool {
+				for _, in := range b.Instrs {
+					c, isC := in.(*ssa.Call)
+					if !isC {
+						continue
+					}
+					if strings.HasSuffix(callName(c.Common()), "types.DecCoins.Sub") && len(c.Common().Args) == 2 {
+						a0, a1 := c.Common().Args[0], c.Common().Args[1]
+						pc, isP := stripSlice(a1).(*ssa.Call)
+						if isP && chain[a0] && strings.HasSuffix(callName(pc.Common()), "keeper.calculatePercentage") &&
+							loadOfField(toLoop(pc.Common().Args[0]), "Share", nil) && isInflow(f, pc.Common().Args[1]) {
+							// the result must flow on: stored back into the cell it was loaded from, or used further
+							if c.Referrers() != nil && len(*c.Referrers()) > 0 {
+								return true
+							}
+						}
+					}
+					if h := c.Common().StaticCallee(); h != nil && inTree[h] && h != f && !c.Common().IsInvoke() && depth < 3 {
+						bind := bindParams(h, c)
+						if helperMustSub(h, func(v ssa.Value) ssa.Value { return toLoop(translateValue(v, bind, 0)) }, depth+1) {
+							return true
+						}
+					}
+				}
+				return false
+			}
+			helperMustSub = func(h *ssa.Function, toLoop func(ssa.Value) ssa.Value, depth int) bool {
+				// no path entry -> return that avoids every subtracting block
+				seen := map[*ssa.BasicBlock]bool{}
+				stack := []*ssa.BasicBlock{h.Blocks[0]}
+				for len(stack) > 0 {
+					b := stack[len(stack)-1]
+					stack = stack[:len(stack)-1]
+					if seen[b] || subInBlock(h, b, toLoop, depth) {
+						continue
+					}
+					seen[b] = true
+					if len(b.Instrs) > 0 {
+						if _, isRet := b.Instrs[len(b.Instrs)-1].(*ssa.Return); isRet {
+							return false
+						}
+					}
+					stack = append(stack, b.Succs...)
+				}
+				return true
+			}
+			ident := func(v ssa.Value) ssa.Value { return v }
+			ok := loopBodyMustPass(*shareLoop, func(b *ssa.BasicBlock) bool {
+				return blockHasCall(b, isShareSub) || subInBlock(fn, b, ident, 0)
+			}) && loopEarlyExit(*shareLoop) == nil
 			r.Check(ok, "C04.everyshare", "every share is taken from the remainder", w.Pos(shareLoop.Body.Instrs[0].Pos()), "every path through the loop body subtracts calculatePercentage(share.Share, inflow)",
 				"some iteration path (a share whose destination is the main account) skips the subtraction: that share is silently added to the primary destination")
 		}
@@ -1181,13 +1227,34 @@ func checkC04(w *World, r *Report) {
 			f := s.Caller
 			c := siteCall(s)
 			args := c.Common().Args
-			isShare := loadOfField(args[0], "Share", nil)
-			isBurn := loadOfField(args[0], "BurnShare", nil)
+			// the fraction in the terms of the routine (a helper that takes the share is handed the fraction by its callers)
+			frac := e.ToRoot(args[0])
+			isShare := loadOfField(frac, "Share", nil)
+			isBurn := loadOfField(frac, "BurnShare", nil)
 			okInflow := isInflow(f, args[1])
 			r.Check((isShare || isBurn) && okInflow, "C04.fraction", "fraction applied to the total inflow", w.Pos(s.Instr.Pos()), "calculatePercentage(own share, inflow parameter)", "the share is not the destination's own fraction of the sub-distributor's total inflow")
-			// credited to the same destination
-			for _, s2 := range cg.Sites[f] {
+			// credited to the same destination: the credit sites of the functions on this call's chain whose share operand
+			// stands for this very call
+			onChain := map[*ssa.Function]int{f: len(e.Chain)}
+			for k, cs := range e.Chain {
+				onChain[cs.Caller] = k
+			}
+			for _, e2 := range sites {
+				s2 := e2.Site
 				if len(s2.Callees) == 0 || !strings.Contains(s2.Method, "addSharesTo") {
+					continue
+				}
+				lvl, on := onChain[s2.Caller]
+				if !on || len(e2.Chain) != lvl {
+					continue
+				}
+				samePrefix := true
+				for k := 0; k < lvl; k++ {
+					if e2.Chain[k] != e.Chain[k] {
+						samePrefix = false
+					}
+				}
+				if !samePrefix {
 					continue
 				}
 				hit := false
@@ -1195,13 +1262,25 @@ func checkC04(w *World, r *Report) {
 					if a2 == ssa.Value(c) {
 						hit = true
 					}
+					if pcs, ok := shareCallsOf(a2, inTree, 0); ok && lvl < len(e.Chain) {
+						// the helper call through which this percentage call is reached from the crediting function
+						if cc, isC := a2.(*ssa.Call); isC && ssa.CallInstruction(cc) == e.Chain[lvl].Instr {
+							for _, pc := range pcs {
+								if pc == c {
+									hit = true
+								}
+							}
+						}
+					}
 				}
 				if !hit {
 					continue
 				}
+				// the fraction in the crediting function's terms
+				fracAt := EffSite{Chain: e.Chain[lvl:]}.ToRoot(args[0])
 				if isShare {
 					okDest := false
-					shareElem := derefRoot(args[0])
+					shareElem := derefRoot(fracAt)
 					for _, a2 := range s2.Args() {
 						if fa, ok := a2.(*ssa.FieldAddr); ok {
 							if _, f := fieldOf(fa); f == "Destination" && derefRoot(fa.X) == shareElem {
@@ -1211,7 +1290,13 @@ func checkC04(w *World, r *Report) {
 					}
 					r.Check(okDest, "C04.fraction", "share credited to its own destination", w.Pos(s2.Instr.Pos()), "&share.Destination of the same element", "a share is credited to another destination than its own")
 				} else {
-					r.Check(strings.Contains(s2.Method, "Burn"), "C04.fraction", "burn share credited to the burn state", w.Pos(s2.Instr.Pos()), "addSharesToBurnState", "the burn share is credited to an account state")
+					burnCredit := strings.Contains(s2.Method, "Burn")
+					for _, a2 := range s2.Args() {
+						if fnv, isF := a2.(*ssa.Function); isF && strings.Contains(fnv.Name(), "Burn") {
+							burnCredit = true // the burn-state finder handed to a shared crediting helper
+						}
+					}
+					r.Check(burnCredit, "C04.fraction", "burn share credited to the burn state", w.Pos(s2.Instr.Pos()), "addSharesToBurnState", "the burn share is credited to an account state")
 				}
 			}
 		}
@@ -1840,4 +1925,45 @@ func accumulatorSigns(v ssa.Value, sign int, header *ssa.BasicBlock, out map[*ss
 	case *ssa.Slice:
 		accumulatorSigns(x.X, sign, header, out, seen)
 	}
+}
+
+// shareCallsOf: the calculatePercentage calls a value stands for: the call itself, or - for the result of a helper of
+// the distribution tree - the percentage calls every return of the helper yields (`share := d.takeShare(pct)`).
+func shareCallsOf(v ssa.Value, inTree map[*ssa.Function]bool, depth int) ([]*ssa.Call, bool) {
+	if depth > 3 {
+		return nil, false
+	}
+	idx := 0
+	var c *ssa.Call
+	switch y := v.(type) {
+	case *ssa.Call:
+		c = y
+	case *ssa.Extract:
+		c, _ = y.Tuple.(*ssa.Call)
+		idx = y.Index
+	}
+	if c == nil {
+		return nil, false
+	}
+	if strings.HasSuffix(callName(c.Common()), "keeper.calculatePercentage") {
+		return []*ssa.Call{c}, true
+	}
+	h := c.Common().StaticCallee()
+	if h == nil || !inTree[h] || c.Common().IsInvoke() {
+		return nil, false
+	}
+	var out []*ssa.Call
+	rets := Returns(h)
+	for _, ret := range rets {
+		rv := retVals(ret)
+		if idx >= len(rv) {
+			return nil, false
+		}
+		cs, ok := shareCallsOf(rv[idx], inTree, depth+1)
+		if !ok {
+			return nil, false
+		}
+		out = append(out, cs...)
+	}
+	return out, len(rets) > 0
 }
